@@ -273,6 +273,102 @@ def run_schedule(yardl, home, root, hist, initial_valid=True):
     return res
 
 
+# ---------------------------------------------------------------- WatchEnv.tla: faults that leave something behind in the process
+ENV_MANIFEST = MANIFEST
+ENV_LIB_MANIFEST = "namespace: Lib\nimports:\n  - ../leaf\n"
+BAD_IMPORT = "  - https://\n"            # cannot be fetched (fails inside fetchAndCachePackages, after the Chdir)
+
+
+def run_env_schedule(yardl, home, root, hist):
+    """main -> lib -> leaf; the edits of a WatchEnv.tla behaviour are performed on the real watcher (waiting for it to settle where the
+    behaviour says it had); afterwards the output tree is compared with one-shot generate on the final contents"""
+    mdir, ldir, fdir = os.path.join(root, "model"), os.path.join(root, "lib"), os.path.join(root, "leaf")
+    for d in (mdir, ldir, fdir):
+        os.makedirs(d)
+    open(os.path.join(fdir, "_package.yml"), "w").write("namespace: Leaf\n")
+    open(os.path.join(fdir, "leaf.yml"), "w").write("LeafThing: !record\n  fields:\n    z: int\n")
+    open(os.path.join(ldir, "_package.yml"), "w").write(ENV_LIB_MANIFEST)
+    open(os.path.join(ldir, "base.yml"), "w").write(LIBBASE + "LibUser: !record\n  fields:\n    t: Leaf.LeafThing\n")
+    open(os.path.join(mdir, "_package.yml"), "w").write(ENV_MANIFEST)
+    open(os.path.join(mdir, "main.yml"), "w").write(MAIN)
+    open(os.path.join(mdir, "extra.yml"), "w").write(extra_text(0))
+    trace = os.path.join(root, "trace.ndjson")
+    env = yardl_env(home)
+    env["YARDL_VERIF_TRACE"] = trace
+    log = open(os.path.join(root, "watch.log"), "wb")
+    proc = subprocess.Popen([yardl, "generate", "--watch"], cwd=mdir, env=env, stdout=log, stderr=subprocess.STDOUT)
+    res = {"hist": hist, "alive": True, "problem": None}
+
+    def counts():
+        s = e = f = 0
+        try:
+            for l in open(trace):
+                s += '"RegenStart"' in l
+                e += '"RegenEnd"' in l
+                f += '"FsEvent"' in l
+        except OSError:
+            pass
+        return s, e, f
+
+    def settle(timeout=15, quiet=0.5):
+        t0, last, last_change = time.time(), None, time.time()
+        while time.time() - t0 < timeout:
+            cur = counts()
+            if cur != last:
+                last, last_change = cur, time.time()
+            if cur[0] == cur[1] and cur[0] >= 1 and time.time() - last_change > quiet:
+                return True
+            if proc.poll() is not None:
+                return False
+            time.sleep(0.02)
+        return False
+    version = 0
+    try:
+        if not settle():
+            res["problem"] = "the watcher never finished its first generation"
+            return res
+        for tok in hist:
+            if tok["settled"]:
+                settle()
+            k = tok["kind"]
+            version += 1
+            if k == "model_error":
+                open(os.path.join(mdir, "extra.yml"), "w").write(extra_text(version, False))
+            elif k == "main_fetch_error":
+                open(os.path.join(mdir, "_package.yml"), "w").write(ENV_MANIFEST.replace("  - ../lib\n", "  - ../lib\n" + BAD_IMPORT))
+            elif k == "nested_fetch_error":
+                open(os.path.join(ldir, "_package.yml"), "w").write(ENV_LIB_MANIFEST + BAD_IMPORT)
+            elif k == "nested_manifest_error":
+                open(os.path.join(ldir, "_package.yml"), "w").write("namespace: Lib\nimports: {this is: [not a list\n")
+            elif k in ("repair", "save"):
+                open(os.path.join(ldir, "_package.yml"), "w").write(ENV_LIB_MANIFEST)
+                open(os.path.join(mdir, "_package.yml"), "w").write(ENV_MANIFEST)
+                open(os.path.join(mdir, "extra.yml"), "w").write(extra_text(version))
+        ok = settle(timeout=25, quiet=1.2)
+        res["alive"] = proc.poll() is None
+        if not ok and res["alive"]:
+            res["problem"] = "the watcher did not settle within 25 s"
+        res["out"] = snapshot(os.path.join(root, "out"))
+        res["version"] = version
+    finally:
+        if proc.poll() is None:
+            proc.send_signal(signal.SIGTERM)
+            try:
+                proc.wait(timeout=5)
+            except subprocess.TimeoutExpired:
+                proc.kill()
+        log.close()
+    # one-shot generate on a copy of the final contents
+    ref = os.path.join(root, "ref")
+    for d in ("model", "lib", "leaf"):
+        shutil.copytree(os.path.join(root, d), os.path.join(ref, d))
+    rc, o, e = run([yardl, "generate"], cwd=os.path.join(ref, "model"), env=yardl_env(home), timeout=120)
+    res["ref_rc"] = rc
+    res["ref"] = snapshot(os.path.join(ref, "out"))
+    res["log"] = open(os.path.join(root, "watch.log"), errors="replace").read()[-1500:]
+    return res
+
+
 def main():
     c = Check("C20", "model_checking")
     sc = scratch("verif-c20-")
@@ -406,6 +502,61 @@ def main():
                     break
             elif e["event"] == "RegenEnd":
                 running -= 1
+    # ---- WatchEnv.tla: the working directory of the watcher process across failed regenerations
+    re1 = tlc("WatchEnv", cfg="MCWatchEnv.cfg", spec_dirs=[wdir], timeout=900, workers=1)
+    c.add_tlc(re1)
+    if re1.violated_names():
+        raise Inconclusive("WatchEnv.tla (working directory restored on every path) violates %s" % re1.violated_names())
+    re2 = tlc("WatchEnv", cfg="MCWatchEnvOnSuccess.cfg", spec_dirs=[wdir], timeout=900)
+    c.add_tlc(re2)
+    if not re2.violated_names():
+        raise Inconclusive("vacuity guard: MCWatchEnvOnSuccess.cfg is expected to violate AtHomeWhenIdle / Converges")
+    envs = {json.dumps(x["hist"], sort_keys=True): x["hist"] for x in tlc_cases(re1.out)}
+    envs = [envs[k] for k in sorted(envs)]
+    c.cov["env_schedules_from_tlc"] = len(envs)
+    c.rng.shuffle(envs)
+
+    def fault_then_settled(h):       # a fault whose failed regeneration has completed before the next edit: what it left behind matters
+        return any(h[i]["kind"] not in ("repair", "save") and h[i + 1]["settled"] for i in range(len(h) - 1))
+    if not thorough:
+        first, seen_k = [], set()
+        for h in [x for x in envs if fault_then_settled(x)] + envs:          # every fault kind in a settled position first
+            k = tuple((t["kind"], t["settled"]) for t in h[:2])
+            if k not in seen_k:
+                seen_k.add(k)
+                first.append(h)
+        envs = first[:14]
+
+    def envwork(arg):
+        i, h = arg
+        root = os.path.join(sc, "env%d" % i)
+        os.makedirs(root)
+        try:
+            return run_env_schedule(yardl, home, root, h)
+        finally:
+            shutil.rmtree(root, ignore_errors=True)
+    for res in pmap(envwork, list(enumerate(envs)), jobs=min(NCPU, 6)):
+        h = res["hist"]
+        shape = ">".join(("" if t["settled"] else "~") + t["kind"] for t in h)
+        c.count(("env", shape), nontrivial=True)
+        c.cov["traces_validated_against_impl"] += 1
+        replay = {"schedule": h, "watch_log": res.get("log")}
+        if res["problem"] and res["alive"]:
+            infra += 1
+            c.note("env schedule %s: %s" % (shape, res["problem"]))
+            continue
+        if not res["alive"]:
+            c.violation("C20:env:died:%s" % shape, "the watcher process exited during %s" % shape, replay)
+            continue
+        if res.get("ref_rc") != 0:
+            raise Inconclusive("the final contents of env schedule %s are not a valid package for one-shot generate" % shape)
+        exp, got = res["ref"], res["out"]
+        diff = sorted(k for k in set(exp) | set(got) if exp.get(k) != got.get(k))
+        if diff:
+            replay["differing_files"] = diff[:20]
+            c.violation("C20:env:stale:%s" % shape, "after the edits %s the files on disk differ from one-shot generate on the final contents: %s" % (
+                shape, ", ".join(diff[:4])), replay)
+
     # ---- trace validation: the recorded runs, concatenated, must be a behaviour of the serialized design, and the files found on disk must be
     #      the generation the specification says was written last
     lines, base, nruns = [], 1, 0
